@@ -53,7 +53,7 @@ How to import the package:  PYTHONPATH={wt}/hugr-py/src /venv/bin/python -B your
     (hugr is not installed in /venv; the native module hugr._hugr is absent, so never str()/print hugr.model objects -- use repr)
 Existing test suite (must still pass with your change; 180 tests pass, 39 tests fail with AND without any change because
 the `hugr` validator binary is missing -- ignore those 39, but the set of passing tests must not shrink):
-    cd {wt} && /venv/bin/python -m pytest -ra -q -p no:cacheprovider --timeout=900 --continue-on-collection-errors 2>&1 | tail -5
+    cd {wt} && /venv/bin/python -m pytest -ra -q -p no:cacheprovider --timeout=900 --continue-on-collection-errors --ignore=SEED 2>&1 | tail -5
     (compare the pass / fail counts before and after your change: 180 passed before)
 
 What kind of change: the sort of bug a maintainer could plausibly introduce in a refactoring or "small improvement"
